@@ -178,10 +178,14 @@ func (e *Engine) rtCall(c *CallCtx) (Value, bool) {
 		return nil, true
 	case "Redirect":
 		iv := c.args[1].(IfaceV)
-		if len(iv.Alts) != 1 || iv.Alts[0].T == nil {
+		name := c.strArg(0)
+		if len(iv.Alts) == 1 && iv.Alts[0].T == nil {
+			delete(st.redirect, name) // Redirect(name, nil) restores the real function
+			return nil, true
+		}
+		if len(iv.Alts) != 1 {
 			panic(pathEnd{kind: "unmodelled", msg: "Redirect: bad func"})
 		}
-		name := c.strArg(0)
 		if !e.w.knownFunc(name) {
 			panic(pathEnd{kind: "harness", msg: "Redirect target not found in program: " + name})
 		}
